@@ -471,7 +471,8 @@ def c19_composition(rng, tier):
         sym = bool(rng.integers(2))
         if not sym and ny % 2 == 0:
             ny += 1
-        mesh = gen.rand_mesh(rng, nx, ny, sym, jitter=0.0)
+        # symmetric surfaces are meshed on either side (left or right half): per-surface flags must not leak between surfaces
+        mesh = gen.rand_mesh(rng, nx, ny, sym, jitter=0.0, right=bool(sym and rng.uniform() < 0.5))
         mesh[:, :, 0] += 5.0 * k; mesh[:, :, 2] += 0.8 * k
         surfaces.append(_surf("s%d" % k, mesh, sym, rng))
     compressible = bool(rng.uniform() < 0.3)
